@@ -22,6 +22,9 @@ pub enum VerifierError {
     NumPositionEvaluationMismatch(usize, usize),
     /// Evaluations at queried positions did not match layer commitment made by the prover.
     LayerCommitmentMismatch,
+    /// The number of layer commitments (including the remainder commitment) is not the one
+    /// implied by the FRI options and the domain size.
+    NumLayerCommitmentsMismatch(usize, usize),
     /// Degree-respecting projection was not performed correctly at one of the layers.
     InvalidLayerFolding(usize),
     /// FRI remainder did not match the commitment.
@@ -52,6 +55,9 @@ impl fmt::Display for VerifierError {
             Self::LayerCommitmentMismatch => {
                 write!(f, "FRI queries did not match layer commitment made by the prover")
             }
+            Self::NumLayerCommitmentsMismatch(expected, actual) => write!(f,
+                "expected {expected} FRI layer commitments (including the remainder commitment), but {actual} were provided"
+            ),
             Self::InvalidLayerFolding(layer) => {
                 write!(f, "degree-respecting projection is not consistent at layer {layer}")
             }
